@@ -249,6 +249,18 @@ fn check_typed(name: &str, q: Option<char>, v: &Variant, udt: &UserDefinedTypes)
             if !x.is_finite() {
                 return Some(format!("{} holds a non-finite number {}", name, x));
             }
+            // the tag must be the declared type's (a value of another tag behaves differently in later arithmetic)
+            let tag = match v {
+                Variant::VInteger(_) => '%',
+                Variant::VLong(_) => '&',
+                Variant::VSingle(_) => '!',
+                _ => '#',
+            };
+            if let Some(qc) = q {
+                if qc != '$' && qc != tag {
+                    return Some(format!("{} declared {} holds a value tagged {} ({})", name, qc, tag, x));
+                }
+            }
             match q {
                 Some('%') => {
                     if x.fract() != 0.0 || !(-32768.0..=32767.0).contains(&x) {
